@@ -37,6 +37,7 @@ def child_xml(p, cid):
             <if cond="i == 2"><send target="#_parent" event="q"><param name="n" expr="4242"/></send></if><send event="go" delay="%(Tc)dms"/></transition>
           <transition event="p"><log label="cp" expr="me .. ' ' .. _event.data.n"/></transition>
           <transition event="fwd"><log label="cf" expr="me .. ' ' .. _event.name"/></transition>
+          <transition event="c" cond="_event.invokeid ~= nil"><log label="ce" expr="me .. ' ' .. _event.invokeid .. ' ' .. _event.data.n"/></transition>
           <transition event="finish" target="cfin"/>
           <onexit><send target="#_parent" event="c"><param name="n" expr="%(bye)d"/></send></onexit>
         </state>
@@ -288,6 +289,12 @@ def analyse(recs, p):
             if not all(x in it for x in cfs): bad.append(('autoforwarded-events-out-of-order-or-not-from-window', {'id': c, 'child': cfs[:40], 'parent_window': win[:40]}))
             if complete() and not iv['finished'] and not iv['cancelled'] and len(cfs) < len(win):
                 bad.append(('autoforwarded-event-lost', {'id': c, 'child': len(cfs), 'parent_window': len(win)}))
+            # "every external event": also the ones that came from this very invocation (and went through <finalize>) are forwarded to it
+            own = [int(r[4].split(' ')[3]) for r in by_thread[t] if r[3] == 'L' and r[4].startswith('ce: ') and r[4].split(' ')[2] == c]
+            mine = [n for sq, n in [(sq, int(l.split(' ')[2])) for sq, l in pL if l.startswith('pc: ' + c + ' ')] if iv['ia'] is not None and sq > iv['ia'] and n != BYE]
+            stats['echo_events'] = stats.get('echo_events', 0) + len(own)
+            if complete() and not iv['finished'] and not iv['cancelled'] and len(invs[c]) == 1 and len(own) < len(mine):
+                bad.append(('autoforward-skips-events-of-the-invocation-itself', {'id': c, 'processed_by_parent': len(mine), 'echoed_to_child': len(own)}))
     if p.get('exitsend'):
         # the exit handler of the invoking state sends to its own invocation: that must work whenever the invocation had been started
         errc = [r[4] for r in recs if r[3] == 'L' and r[4].startswith('ERRCOMM')]
